@@ -269,7 +269,8 @@ def c02_jobs():
 
 PROPS["C02"] = {"jobs": c02_jobs, "assumptions": COMMON_ASSUME + [
     "frame size and the CMP version byte are concrete shape parameters; the input lives in a heap allocation of exactly that size",
-    "termination: the message loop carries an unwinding assertion with bound (N-8)/16+2"],
+    "termination: the message loop carries an unwinding assertion with bound (N-8)/16+2",
+    "history quantifier: besides the fresh-decoder queries, sequences of 2-4 frames (open / continued / completed / aborted reassemblies, two endpoints, foreign and invalid frames) run through one decoder with the same pointer checks; longer histories rest on C17/C18 (the pending table holds at most one bounded entry per endpoint, other entries untouched)"],
     "level": "bounded symbolic model checking with CBMC pointer/bounds checks on every dereference of the real decode path"}
 
 
@@ -700,7 +701,17 @@ def _c02_tecmp():
     return [j for j in tecmp_jobs() if not (j.tier == "thorough" and j.entry == "h_tecmp" and ((j.defs["N"] == 40 and j.defs["MT"] not in (0, 1, 2, 3, 4, 0x0A, 0x55, 0xFF)) or j.defs["DT"] > 0xFF))]
 
 
-PROPS["C02"]["jobs"] = lambda: c02_jobs() + _c02_tecmp()
+def _c02_history():
+    """'after any history of earlier decode calls': sequences of 2-4 frames through one decoder (exact heap buffer per frame,
+    freed after the call, delivered packets read afterwards) with CBMC's pointer checks; the sequence oracles (C05) are foreign
+    to C02 and skipped, the memory checks are not."""
+    q5, t5 = c05_shapes(5)
+    fam = seq_family(5, 2)
+    jobs = [j for j in seq_jobs(q5 + fam[::16], t5[::3] + fam[1::5]) if j.entry == "h_seq"]
+    return jobs
+
+
+PROPS["C02"]["jobs"] = lambda: c02_jobs() + _c02_tecmp() + _c02_history()
 
 
 # ------------------------------------------------------------------ C01 round trip
